@@ -15,6 +15,8 @@ import (
 	"sort"
 	"strconv"
 	"strings"
+	"sync/atomic"
+	"time"
 )
 
 // ---------- S-expressions (line protocol shared with the Lean driver) ----------
@@ -118,6 +120,10 @@ type Out struct {
 	line                int
 	Cases               int
 	Hist                map[string]int
+	beat                int64 // unix seconds of the last record / count (watchdog)
+	lastStage, lastKey  string
+	lastCase            int
+	dir                 string
 }
 
 func newOut(dir string) *Out {
@@ -146,9 +152,37 @@ func (o *Out) close(dir string) {
 	os.WriteFile(dir+"/summary.json", h, 0644)
 }
 
-func (o *Out) count(key string) { o.Hist[key]++ }
+func (o *Out) count(key string) {
+	o.Hist[key]++
+	atomic.StoreInt64(&o.beat, time.Now().Unix())
+}
+
+// watchdog: the code under test is called in-process; when it stops returning (an endless loop in a level
+// series, a name search, a distillation) nothing else would ever be recorded.  After `limit` seconds without
+// a record the run is closed with a failed oracle naming the last completed record (the stuck case is the next
+// one the same seed generates) and the process exits.
+func (o *Out) watchdog(limit int64, seed int64) {
+	atomic.StoreInt64(&o.beat, time.Now().Unix())
+	go func() {
+		for {
+			time.Sleep(5 * time.Second)
+			if idle := time.Now().Unix() - atomic.LoadInt64(&o.beat); idle > limit {
+				m := Meta{Stage: "watchdog", Kind: "oracle", Ok: false, Case: o.lastCase, Key: "watchdog",
+					Clause: fmt.Sprintf("no record for %d s: the code under test did not return from the case after the last completed record", idle),
+					Input:  map[string]interface{}{"seed": seed, "last_completed_stage": o.lastStage, "last_completed_case": o.lastCase, "last_completed_key": truncate(o.lastKey, 4000)}}
+				b, _ := json.Marshal(m)
+				o.meta.Write(b)
+				o.meta.WriteByte('\n')
+				o.close(o.dir)
+				os.Exit(0)
+			}
+		}
+	}()
+}
 
 func (o *Out) writeMeta(m Meta) {
+	atomic.StoreInt64(&o.beat, time.Now().Unix())
+	o.lastStage, o.lastKey, o.lastCase = m.Stage, m.Key, m.Case
 	b, err := json.Marshal(m)
 	if err != nil {
 		m.Input, m.GoOut = fmt.Sprint(m.Input), fmt.Sprint(m.GoOut)
@@ -294,7 +328,17 @@ func verifMain(args []string) int {
 	n, _ := strconv.Atoi(args[4])
 	dir := args[5]
 	o := newOut(dir)
-	f(o, newRng(seed), n, args[2] == "thorough")
+	o.dir = dir
+	limit := int64(180)
+	if args[2] == "thorough" {
+		limit = 600
+	}
+	o.watchdog(limit, seed)
+	rng := newRng(seed)
+	f(o, rng, n, args[2] == "thorough")
+	if sw, ok := glueSweeps[args[1]]; ok {
+		glueSweep(o, rng, sw.methods, sw.biases, 200)
+	}
 	glueReport(o)
 	o.close(dir)
 	return 0
